@@ -73,6 +73,7 @@ type c20Params struct {
 	lagN      int    // >0: the signed root is republished only on every (lagN+1)-th request (1000: never during the scenario)
 	errPct    int
 	shortPct  int
+	emptyPct  int // share of get-entries answers that are `{"entries":[]}` (at most two in a row per request)
 	quotaPct  int // share of AddSequencedLeaves answers that are ResourceExhausted (runs of up to 3)
 	fatalAt   int // the n-th AddSequencedLeaves call fails with a non-quota error (0 = never)
 	cancelAt  time.Duration
@@ -85,8 +86,8 @@ func (p *c20Params) String() string {
 	for _, x := range p.growth {
 		g += fmt.Sprintf("+%v:%d", x.at, x.size)
 	}
-	return fmt.Sprintf("%s mode=%s cont=%v cfg=[%d,%d) batch=%d fetchers=%d submitters=%d chan=%d nocheck=%v idfunc=%v unique=%v size0=%d growth=%s dest0=%d fork=%v proof=%s lag=%v/%d err=%d%% short=%d%% quota=%d%% fatalAt=%d cancel=%v stopAfter=%v loss=%v seed=%d fseed=%d",
-		p.id, p.mode, p.cont, p.cfgStart, p.cfgEnd, p.batch, p.fetchers, p.submit, p.chanSize, p.noCheck, p.idFunc, p.unique, p.size0, g, p.dest0, p.fork, p.proofMode, p.lag, p.lagN, p.errPct, p.shortPct, p.quotaPct, p.fatalAt, p.cancelAt, p.stopAfter, p.lossAt, p.seed, p.fseed)
+	return fmt.Sprintf("%s mode=%s cont=%v cfg=[%d,%d) batch=%d fetchers=%d submitters=%d chan=%d nocheck=%v idfunc=%v unique=%v size0=%d growth=%s dest0=%d fork=%v proof=%s lag=%v/%d err=%d%% short=%d%% empty=%d%% quota=%d%% fatalAt=%d cancel=%v stopAfter=%v loss=%v seed=%d fseed=%d",
+		p.id, p.mode, p.cont, p.cfgStart, p.cfgEnd, p.batch, p.fetchers, p.submit, p.chanSize, p.noCheck, p.idFunc, p.unique, p.size0, g, p.dest0, p.fork, p.proofMode, p.lag, p.lagN, p.errPct, p.shortPct, p.emptyPct, p.quotaPct, p.fatalAt, p.cancelAt, p.stopAfter, p.lossAt, p.seed, p.fseed)
 }
 
 func c20Hash(a, b, c, d uint64) uint64 {
@@ -111,6 +112,7 @@ type c20World struct {
 	spin     map[[2]int64]int // requests for this range at one and the same virtual instant
 	spinAt   map[[2]int64]time.Time
 	errRun   map[[2]int64]int
+	emptyRun map[[2]int64]int
 	sthCalls int
 	maxSTH   int64 // largest tree size served in an STH
 	calls    int
@@ -280,6 +282,13 @@ func (w *c20World) RoundTrip(req *http.Request) (*http.Response, error) {
 			}
 		}
 		w.errRun[key] = 0
+		if int((h>>48)%100) < w.p.emptyPct && w.emptyRun[key] < 2 {
+			// a 200 reply without entries: the range must still be completed (or the pass must fail), never be dropped
+			w.emptyRun[key]++
+			w.out.T(fmt.Sprintf("ret %d %d 0", start, end), "ok")
+			return c20JSON(200, ct.GetEntriesResponse{Entries: []ct.LeafEntry{}}), nil
+		}
+		w.emptyRun[key] = 0
 		n := end - start + 1
 		k := n
 		if int((h>>24)%100) < w.p.shortPct {
@@ -368,9 +377,13 @@ func (w *c20World) addLeaves(req *trillian.AddSequencedLeavesRequest) (*trillian
 	nCall := w.addCalls
 	w.addsAfter++
 	if len(req.Leaves) == 0 {
-		w.failf("empty-batch", "AddSequencedLeaves with no leaves")
+		// migrillian queues the empty batch the Fetcher hands on after a zero-entry get-entries reply; Trillian refuses an
+		// AddSequencedLeaves request without leaves (server/validate.go: InvalidArgument "Leaves empty"), which ends the pass with an error
+		w.disturbed = true
+		w.out.Count("class:empty-batch-refused")
+		w.out.T("addempty", "ok")
 		w.mu.Unlock()
-		return &trillian.AddSequencedLeavesResponse{}, nil
+		return nil, status.Error(codes.InvalidArgument, "AddSequencedLeavesRequest.Leaves empty")
 	}
 	start := req.Leaves[0].LeafIndex
 	k := int64(len(req.Leaves))
@@ -572,7 +585,7 @@ func (f c20Factory) NewElection(ctx context.Context, id string) (election2.Elect
 func c20Run(out *verifkit.Out, p *c20Params) {
 	src := verifkit.NewSrcLog(p.seed, false)
 	src.Unique = p.unique
-	w := &c20World{out: out, p: p, src: src, size: p.size0, maxSize: p.size0, attempts: map[[2]int64]int{}, spin: map[[2]int64]int{}, spinAt: map[[2]int64]time.Time{}, errRun: map[[2]int64]int{},
+	w := &c20World{out: out, p: p, src: src, size: p.size0, maxSize: p.size0, attempts: map[[2]int64]int{}, spin: map[[2]int64]int{}, spinAt: map[[2]int64]time.Time{}, errRun: map[[2]int64]int{}, emptyRun: map[[2]int64]int{},
 		leaves: map[int64]*trillian.LogLeaf{}, byID: map[string]int64{}, refused: map[int64]string{}, quotaRun: map[[2]int64]int{}, quotaSeen: map[[2]int64]bool{}, quotaOpen: map[[2]int64]bool{}, quotaAt: map[[2]int64]time.Time{}, quotaN: map[[2]int64]int{}, ackedNow: map[int64]bool{}}
 	for _, g := range p.growth {
 		if g.size > w.maxSize {
@@ -796,6 +809,7 @@ func c20Gen(r *verifkit.Rand, it int) *c20Params {
 	p.unique = p.idFunc == configpb.IdentityFunction_SHA256_CERT_DATA && r.Intn(4) != 0
 	p.errPct = c20Pick(r, 0, 0, 10, 30)
 	p.shortPct = c20Pick(r, 0, 30, 100)
+	p.emptyPct = c20Pick(r, 0, 0, 0, 10, 30)
 	p.quotaPct = c20Pick(r, 0, 0, 20, 50)
 	p.lag = r.Intn(3) == 0
 	if p.lag && r.Bool() {
@@ -890,6 +904,7 @@ func TestVerifC20(t *testing.T) {
 		{id: "f0", mode: "run", proofMode: "ok", cfgStart: -1, size0: 0, batch: 10, fetchers: 1, submit: 1, idFunc: cd, seed: 1},
 		{id: "f1", mode: "run", proofMode: "ok", cfgStart: -1, size0: 57, batch: 10, fetchers: 2, submit: 2, idFunc: cd, seed: 2, shortPct: 30},
 		{id: "u1", unique: true, mode: "run", proofMode: "ok", cfgStart: -1, size0: 57, batch: 10, fetchers: 2, submit: 2, idFunc: cd, seed: 2, shortPct: 30},
+		{id: "e0", mode: "run", proofMode: "ok", cfgStart: -1, size0: 6, batch: 2, fetchers: 1, submit: 1, idFunc: li, seed: 15, emptyPct: 100},
 		{id: "f2", mode: "run", proofMode: "ok", cfgStart: -1, size0: 57, dest0: 20, batch: 7, fetchers: 3, submit: 2, idFunc: li, seed: 3, shortPct: 100, errPct: 10},
 		{id: "f3", mode: "run", proofMode: "ok", cfgStart: -1, size0: 57, dest0: 57, batch: 7, fetchers: 1, submit: 1, idFunc: li, seed: 4},
 		{id: "f4", unique: true, mode: "run", proofMode: "ok", cfgStart: -1, size0: 40, dest0: 10, fork: true, batch: 7, fetchers: 1, submit: 1, idFunc: cd, seed: 5},
